@@ -5,5 +5,7 @@
 # TLC_DEQUE=1 depth-first state queue (trace validation)
 OPTS=""
 if [ -n "$TLC_DEQUE" ]; then OPTS="-Dtlc2.tool.queue.IStateQueue=StateDeque"; fi
-exec java -Xss1g -XX:+UseParallelGC ${TLC_HEAP:--Xmx6g} $OPTS \
+LIB=""
+if [ -n "$TLA_LIB" ]; then LIB="-DTLA-Library=$TLA_LIB"; fi
+exec java $LIB -Xss1g -XX:+UseParallelGC ${TLC_HEAP:--Xmx6g} $OPTS \
   -cp /opt/veriftools/tla/tla2tools.jar:/opt/veriftools/tla/CommunityModules-deps.jar tlc2.TLC "$@"
